@@ -49,6 +49,10 @@ N2 == LET x == CHOOSE v \in 1..40 : F2Legendre(E2!Rhs(<<FromNat(v), One>>)) # (0
 NonSub(g) == IF g = 1 THEN N1 ELSE N2
 ASSUME E1!OnCurve(N1) /\ E2!OnCurve(N2) /\ E2!ScalarMul(RMod, N2) # <<>>
 
+\* curve points with a zero coordinate: (0, 2) and (0, -2) on E1 (order 3, outside the subgroup; E2 has no point over x = 0 and neither curve
+\* has one over y = 0).  A finite point is told from the identity by its flag / its z, never by a coordinate being zero.
+ZeroX(g) == IF g = 1 THEN { <<Zero, Two>>, <<Zero, Sub(QMod, Two)>> } ELSE {}
+ASSUME \A P \in ZeroX(1) : E1!OnCurve(P)
 P3(g) == SMul(g, FromNat(3), Gen(g))
 P5(g) == SMul(g, FromNat(5), Gen(g))
 \* relation classes: <<name, point a, point b>>
@@ -56,6 +60,7 @@ Rels(g) == { <<"generic", P3(g), P5(g)>>, <<"equal", P3(g), P3(g)>>, <<"opposite
              <<"aO", <<>>, P5(g)>>, <<"bO", P3(g), <<>>>>, <<"bothO", <<>>, <<>>>>,
              <<"nonsub-generic", NonSub(g), P5(g)>>, <<"nonsub-equal", NonSub(g), NonSub(g)>>, <<"nonsub-opposite", NonSub(g), NegG(g, NonSub(g))>>,
              <<"nonsub-double-vs-sum", SMul(g, Two, NonSub(g)), NonSub(g)>> }
+           \cup UNION { { <<"xzero-generic", T, P5(g)>>, <<"xzero-generic", P3(g), T>>, <<"xzero-equal", T, T>>, <<"xzero-opposite", T, NegG(g, T)>> } : T \in ZeroX(g) }
 Apis == {"cpp", "c"}
 
 BinCases(g, o, RA(_, _), RB(_, _), aliases) ==
@@ -75,9 +80,9 @@ PointCases(g) ==
                       { [op |-> "pt.add_mixed", g |-> g, rel |-> "identity-holding-operand", a |-> JacRaw(g, pt, FOneG(g)), b |-> idp, alias |-> al, api |-> api, src |-> "gen"] : al \in {0, 1}, api \in Apis }
                     : pt \in { P3(g), NonSub(g) } })
   \o SetToSeq({ [op |-> o, g |-> g, rel |-> "unary", a |-> ra, alias |-> al, api |-> api, src |-> "gen"] :
-             o \in {"pt.dbl", "pt.neg", "pt.to_affine", "pt.is_zero"}, ra \in UNION { Reps(g, x) : x \in { P3(g), <<>>, NonSub(g) } }, al \in {0, 1}, api \in Apis })
+             o \in {"pt.dbl", "pt.neg", "pt.to_affine", "pt.is_zero"}, ra \in UNION { Reps(g, x) : x \in { P3(g), <<>>, NonSub(g) } \cup ZeroX(g) }, al \in {0, 1}, api \in Apis })
   \o SetToSeq({ [op |-> o, g |-> g, rel |-> "unary", a |-> ra, alias |-> al, api |-> api, src |-> "gen"] :
-             o \in {"pt.from_affine", "pt.aneg", "pt.on_curve"}, ra \in UNION { AffReps(g, x) : x \in { P3(g), <<>>, NonSub(g) } }, al \in {0, 1}, api \in Apis })
+             o \in {"pt.from_affine", "pt.aneg", "pt.on_curve"}, ra \in UNION { AffReps(g, x) : x \in { P3(g), <<>>, NonSub(g) } \cup ZeroX(g) }, al \in {0, 1}, api \in Apis })
   \o SetToSeq({ [op |-> o, g |-> g, rel |-> "unary", a |-> ra, alias |-> al, api |-> "cpp", src |-> "gen"] :
              o \in {"pt.copy", "pt.set"}, ra \in UNION { Reps(g, x) : x \in { P3(g), <<>> } }, al \in {0, 1} })
   \o SetToSeq({ [op |-> o, g |-> g, rel |-> "unary", a |-> ra, alias |-> al, api |-> "cpp", src |-> "gen"] :
